@@ -133,6 +133,7 @@ struct Block {
     uint64_t serial;
     bool live;
     bool poisoned;
+    bool bypass = false;  // obtained through a plain libc allocator call of the library (not the H3_MEMORY seam)
 };
 
 uint8_t *g_arena = nullptr;
@@ -207,6 +208,9 @@ void fillPayload(uint8_t *p, size_t size, int mode, uint64_t seed) {
     }
 }
 
+// set while the library calls the libc allocator directly instead of H3_MEMORY(...)
+thread_local bool tl_bypass = false;
+
 // decide whether this request is failed by the plan
 int decideFault(OpHeapCtx *c, int kind, size_t size) {
     const FaultPlan &p = c->plan;
@@ -244,12 +248,19 @@ int decideFault(OpHeapCtx *c, int kind, size_t size) {
 void *doAlloc(int kind, size_t size, bool zero, uintptr_t site) {
     if (heapSchedHook) heapSchedHook();
     OpHeapCtx *c = tl_ctx ? tl_ctx : &g_unbound;
-    c->allocCount++;
-    if (kind == 0) c->mallocCount++;
-    if (kind == 1) c->callocCount++;
+    const bool byp = tl_bypass;
+    if (byp) {
+        // a request that bypasses the seam is invisible to a custom allocator: it is not part of the
+        // request numbering, cannot be failed by the plan, but the block is tracked like any other
+        c->bypassAllocs++;
+    } else {
+        c->allocCount++;
+        if (kind == 0) c->mallocCount++;
+        if (kind == 1) c->callocCount++;
+    }
     g_totalAllocs++;
     size_t want = size ? size : 1;
-    int f = decideFault(c, kind, size);
+    int f = byp ? (int)F_NONE : decideFault(c, kind, size);
     AllocRec rec;
     rec.kind = (uint8_t)kind;
     rec.size = size;
@@ -338,6 +349,7 @@ void *doAlloc(int kind, size_t size, bool zero, uintptr_t site) {
     nb.serial = ++g_serial;
     nb.live = true;
     nb.poisoned = false;
+    nb.bypass = byp;
     if (zero)
         memset(nb.ptr, 0, want);
     else
@@ -347,8 +359,8 @@ void *doAlloc(int kind, size_t size, bool zero, uintptr_t site) {
     g_byPtr[nb.ptr] = g_blocks.size() - 1;
     g_liveBytes += (int64_t)want;
     c->liveBytesOp += (int64_t)want;
-    c->allocs.push_back(rec);
-    c->log.add(0xA110C000ULL | (uint64_t)kind);
+    if (!byp) c->allocs.push_back(rec);
+    c->log.add((byp ? 0xB1A55000ULL : 0xA110C000ULL) | (uint64_t)kind);
     c->log.add(size);
 #ifdef SIM_DELEGATE_MALLOC
     c->log.add(nb.serial);
@@ -375,6 +387,13 @@ void doFree(void *vp, uintptr_t site) {
         return;
     }
     Block &b = g_blocks[it->second];
+    if (b.live && b.bypass != tl_bypass)
+        violate(c, "bad-free",
+                b.bypass ? "block obtained with the plain libc allocator released through H3_MEMORY(free): a custom "
+                           "allocator is handed a pointer it never returned"
+                         : "block obtained through H3_MEMORY(...) released with plain free(): bypasses the custom "
+                           "allocator",
+                site);
     if (!b.live) {
         violate(c, "double-free",
                 "free() of a block already freed (size " +
@@ -554,6 +573,60 @@ void *h3sim_realloc(void *ptr, size_t size) {
 }
 void h3sim_free(void *ptr) {
     doFree(ptr, (uintptr_t)__builtin_return_address(0));
+}
+
+// ---- plain libc allocator calls made by the simulated copy of the library ----
+// (renamed at link time, vbuild.py).  The unchanged tree makes none.  They are served from the same
+// arena and tracked by the same monitors (leak, double free, red zones), but are never failed by a fault
+// plan and do not take part in the request numbering, because a custom allocator never sees them.
+struct BypassScope {
+    bool saved;
+    BypassScope() : saved(tl_bypass) { tl_bypass = true; }
+    ~BypassScope() { tl_bypass = saved; }
+};
+static bool ownedByArena(void *p) {
+#ifdef SIM_DELEGATE_MALLOC
+    return g_byPtr.count((uint8_t *)p) != 0;
+#else
+    return g_arena && (uint8_t *)p >= g_arena && (uint8_t *)p < g_arena + ARENA_SIZE;
+#endif
+}
+void *h3byp_malloc(size_t size) {
+    BypassScope s;
+    return doAlloc(0, size, false, (uintptr_t)__builtin_return_address(0));
+}
+void *h3byp_calloc(size_t num, size_t size) {
+    BypassScope s;
+    size_t total;
+    if (__builtin_mul_overflow(num, size, &total)) return nullptr;
+    return doAlloc(1, total, true, (uintptr_t)__builtin_return_address(0));
+}
+void h3byp_free(void *ptr) {
+    // memory that libc itself handed to the library (strdup, getline, ...) goes back to libc
+    if (ptr && !ownedByArena(ptr)) {
+        free(ptr);
+        return;
+    }
+    BypassScope s;
+    doFree(ptr, (uintptr_t)__builtin_return_address(0));
+}
+void *h3byp_realloc(void *ptr, size_t size) {
+    if (ptr && !ownedByArena(ptr)) return realloc(ptr, size);
+    BypassScope s;
+    uintptr_t site = (uintptr_t)__builtin_return_address(0);
+    if (!ptr) return doAlloc(2, size, false, site);
+    if (size == 0) {
+        doFree(ptr, site);
+        return nullptr;
+    }
+    size_t oldSize = 0;
+    auto it = g_byPtr.find((uint8_t *)ptr);
+    if (it != g_byPtr.end() && g_blocks[it->second].live) oldSize = g_blocks[it->second].size;
+    void *n = doAlloc(2, size, false, site);
+    if (!n) return nullptr;
+    memcpy(n, ptr, oldSize < size ? oldSize : size);
+    doFree(ptr, site);
+    return n;
 }
 }
 
